@@ -12,8 +12,22 @@ def run(tier, seed):
     vlib.require(rep["nontrivial"] > 10, "replay too small")
     # "a resource that requires any permission is never served as a redirect": the redirect universe (single rules)
     netcommon.mc_and_replay(v, wd, "c13", 1, False)
-    # M3: argument encoding on random argument lists / spellings (control characters, quotes, backslashes, U+2028, $-sequences)
+    # the permission gate over the whole 256 x 256 space (MC_Perm), at mask, storage and engine level
     import os, json
+    rp = vlib.run_tlc("MC_Perm", "INIT Init\nNEXT Next\nINVARIANTS Monotone Exported\nCHECK_DEADLOCK FALSE\n", wd, "mc_perm", workers=4, timeout=600)
+    if rp["error"]:
+        raise vlib.ToolError("MC_Perm failed: " + rp["error"][:1500])
+    v.add_tlc(rp)
+    perm_cases = [e for e in rp["exports"] if isinstance(e, dict) and e.get("k") == "perm"]
+    vlib.require(len(perm_cases) == 256, "MC_Perm exported %d rows" % len(perm_cases))
+    pc = os.path.join(wd, "cases_perm.jsonl")
+    vlib.write_jsonl(pc, perm_cases)
+    pr = os.path.join(wd, "report_perm.json")
+    vlib.run_harness(["replay", pc, pr], timeout=3000)
+    prep = vlib.load_report(pr)
+    vlib.require(prep["evaluations"] >= 65536, "permission replay incomplete")
+    v.add_report(prep, "M2:MC_Perm", traces=256)
+    # M3: argument encoding on random argument lists / spellings (control characters, quotes, backslashes, U+2028, $-sequences)
     tr = os.path.join(wd, "trace.ndjson")
     summ = json.loads(vlib.run_harness(["record", "c18", tr, str(seed), "2500" if tier == "quick" else "20000"]))
     rt, done, mism = vlib.trace_validate("Trace_C18", tr, wd, "trace")
